@@ -1,37 +1,68 @@
 """C16 - signed requests verify against the bytes actually sent (DESIGN.md section 4, C16).
 
-The real Binance and Bitstamp clients over a loopback aiohttp server (production host names resolved to 127.0.0.1, time
-patched). Every signed endpoint of both clients x for each free-form string argument: EVERY printable-ASCII character in
-first / middle / last position, and EVERY ordered pair of URL-special characters x representative decimals. The server
-verifies like the exchange does, from the raw request line, headers and body only.
+The real Binance and Bitstamp clients over a loopback aiohttp server (production host names resolved to 127.0.0.1, virtual
+clock). Enumerated, all exhaustively:
+
+ * every signed endpoint of both clients x for each free-form string argument: EVERY printable-ASCII character in first /
+   middle / last position, and EVERY ordered pair of URL-special characters x representative decimals;
+ * decimal keyword arguments of every exponent form;
+ * SEQUENCES of requests on ONE client object: every ordered pair of the request table of an exchange (body / body-less /
+   query-string / key-only / public requests), and every triple of one representative per request class - state kept on a
+   client between requests (headers, parameter dicts) must not leak into the next request;
+ * throttled clients (token bucket exhausted; the clock advances only when the library sleeps, whichever module it sleeps in);
+ * server faults: in every sequence of three requests of the class representatives, every single request (and every two
+   consecutive requests) is received completely and then the connection is dropped without an answer; whatever the client
+   transmits afterwards (its own retry, aiohttp's retry of idempotent requests, the next call) is verified like everything else;
+ * process restarts: two child processes with identical inputs.
+
+The server verifies like the exchange does, from the raw request line, headers and body only; Bitstamp nonces are collected
+over EVERYTHING received in a scenario - several client objects, retries, dropped requests - and must be pairwise distinct.
 """
 import asyncio
+import itertools
+import json
+import os
 import random
 import string
+import subprocess
+import sys
+import time as _real_time
 from decimal import Decimal as D
 
 import aiohttp
 
 from mc.framework import Result, h64
+from mc.repo import HarnessError
 from worlds import http as H
 
 PROPERTY = "C16"
-RULE = ("case = (endpoint, value of its free-form string argument); strings = every printable ASCII character in first, "
-        "middle and last position of a 3-character id, plus every ordered pair of URL-special characters; each case is "
-        "one real request received by a loopback server and verified from the transmitted bytes. Distinct = distinct "
-        "(endpoint, string); non-trivial = the string contains a character that some encoder escapes.")
+RULE = ("case = (endpoint, value of its free-form string argument) | (ordered pair / triple of requests on one client object) "
+        "| (request sequence, set of arrival indexes whose connection is dropped after the request was read) | (bucket "
+        "configuration, endpoint, request number); strings = every printable ASCII character in first, middle and last "
+        "position of a 3-character id, plus every ordered pair of URL-special characters; each case is a run of real requests "
+        "received by a loopback server and verified from the transmitted bytes. Distinct = distinct case descriptors; "
+        "non-trivial = the string contains a character that some encoder escapes / the two requests of a pair belong to "
+        "different request classes / a request was dropped / the client had to wait.")
 ASSUMPTIONS = [
     "loopback HTTP (no TLS); the Host header and the signed host are the production names through a custom resolver",
-    "time.time patched to a known value in the two signing modules; 'current' = equal to that value in ms",
-    "Bitstamp nonces: all nonces of a run pairwise distinct, 36 lower-case characters",
+    "one virtual clock (mc.vtime.VirtualTime: time, time_ns, monotonic, perf_counter) installed as the `time` attribute of "
+    "every loaded basana module; 'current' = within 1 ms of the clock reading at the moment the request arrives (the clock "
+    "moves only when the library sleeps: asyncio.sleep is virtual for callers inside basana modules)",
+    "Bitstamp nonces: all nonces received in a scenario (several client objects, retries, dropped requests) and across two "
+    "process starts pairwise distinct, 36 lower-case characters",
     "the two encoders act per character, so single characters and pairs exhaust their behaviour classes",
+    "state a client keeps between requests depends on the previous request only through its class (method, body or not, query "
+    "or not, signed / key-only / public): all ordered pairs of the request table and all triples of class representatives",
+    "server fault = the request is read completely and the connection closed without a response (ServerDisconnectedError); "
+    "refused connections, timeouts and resets while the request is being written transmit nothing that could be verified",
 ]
-BOUNDS = {"quick": dict(pairs=True), "thorough": dict(pairs=True)}
-EXPLANATION = ("bounded exhaustive input enumeration through the real clients and a real HTTP stack on loopback; every case is "
-               "an implementation run")
+BOUNDS = {"quick": dict(pairs=True, sequence=2, class_sequence=3, drops=2), "thorough": dict(pairs=True, sequence=2, class_sequence=3, drops=2)}
+EXPLANATION = ("bounded exhaustive input / request-sequence / fault-placement enumeration through the real clients and a real "
+               "HTTP stack on loopback; every case is an implementation run")
 PRINTABLE = [c for c in string.printable[:95]]
 SPECIAL = " :/?#[]@!$&'()*+,;=%~"
 DECS = (D("1"), D("0.00000085"), D("1E+3"), D("1234.5678"))
+BUCKETS = ((1, 2.5, 1, 3), (2, 1, 0, 3), (1, 7, 1, 2))
 
 
 def strings(tier):
@@ -64,11 +95,7 @@ def endpoints(b, s):
             "BTCUSDT", "SELL", D("1"), D("1234.5678"), D("1E+3"), stop_limit_price=D("0.00000085"),
             stop_limit_time_in_force="GTC", list_client_order_id=x, limit_client_order_id=x + "L", stop_client_order_id=x), True)
         E[f"binance.{name}.cancel_oco"] = ("b", lambda x, acc=acc: acc.cancel_oco_order("BTCUSDT", client_order_list_id=x), True)
-        if name == "spot":
-            E[f"binance.{name}.query_oco"] = ("b", lambda x, acc=acc: acc.query_oco_order(client_order_list_id=x), True)
-        else:
-            E[f"binance.{name}.query_oco"] = ("b", lambda x, acc=acc: acc.query_oco_order(client_order_list_id=x) if name == "cross"
-                                              else acc.query_oco_order(client_order_list_id=x), True)
+        E[f"binance.{name}.query_oco"] = ("b", lambda x, acc=acc: acc.query_oco_order(client_order_list_id=x), True)
         E[f"binance.{name}.open_orders.symbol"] = ("b", lambda x, acc=acc: acc.get_open_orders(x), True)
         E[f"binance.{name}.trades.symbol"] = ("b", lambda x, acc=acc: acc.get_trades(x, order_id=7), True)
     E["binance.spot.keep_alive_listen_key"] = ("b", lambda x: sp.keep_alive_listen_key(x), False)
@@ -111,6 +138,63 @@ def fixed_endpoints(b, s):
     }
 
 
+# ---- sequences of requests on one client -----------------------------------------------------------------------------
+# name -> (callable(b, s) -> coroutine, signed: True / False (key only) / None (public, nothing to verify), request class)
+# The request class says what the library has to build for the request: method, where the parameters travel, which
+# credentials accompany it.
+def _seq_table(ex):
+    T = {}
+    if ex == "b":
+        for nm, get in (("spot", lambda b: b.spot_account), ("cross", lambda b: b.cross_margin_account),
+                        ("iso", lambda b: b.isolated_margin_account)):
+            T[f"binance.{nm}.account"] = (lambda b, s, get=get: get(b).get_account_information(), True, "GET-signed-bare")
+            T[f"binance.{nm}.create_order"] = (lambda b, s, get=get: get(b).create_order(
+                "BTCUSDT", "BUY", "LIMIT", time_in_force="GTC", quantity=D("1"), price=D("0.00000085"),
+                new_client_order_id="a:/b"), True, "POST-signed-body")
+            T[f"binance.{nm}.query_order"] = (lambda b, s, get=get: get(b).query_order("BTCUSDT", orig_client_order_id="a:/b"),
+                                              True, "GET-signed-query")
+            T[f"binance.{nm}.cancel_order"] = (lambda b, s, get=get: get(b).cancel_order("BTCUSDT", order_id=77), True,
+                                               "DELETE-signed-query")
+            T[f"binance.{nm}.cancel_oco"] = (lambda b, s, get=get: get(b).cancel_oco_order("BTCUSDT", order_list_id=5), True,
+                                             "DELETE-signed-body")
+        T["binance.spot.open_orders"] = (lambda b, s: b.spot_account.get_open_orders("ETHBTC"), True, "GET-signed-query")
+        T["binance.spot.trades"] = (lambda b, s: b.spot_account.get_trades("BTCUSDT", order_id=7), True, "GET-signed-query")
+        T["binance.spot.create_oco"] = (lambda b, s: b.spot_account.create_oco(
+            "BTCUSDT", "SELL", D("1"), D("1234.5678"), D("1E+3"), list_client_order_id="x y"), True, "POST-signed-body")
+        T["binance.cross.transfer"] = (lambda b, s: b.cross_margin_account.transfer_from_spot_account("BTC", D("1E+3")), True,
+                                       "POST-signed-body")
+        T["binance.spot.create_listen_key"] = (lambda b, s: b.spot_account.create_listen_key(), False, "POST-key-bare")
+        T["binance.iso.create_listen_key"] = (lambda b, s: b.isolated_margin_account.create_listen_key("BTCUSDT"), False,
+                                              "POST-key-body")
+        T["binance.spot.keep_alive_listen_key"] = (lambda b, s: b.spot_account.keep_alive_listen_key("k1"), False, "PUT-key-body")
+        T["binance.public.exchange_info"] = (lambda b, s: b.get_exchange_info("BTCUSDT"), None, "GET-public-query")
+        T["binance.public.order_book"] = (lambda b, s: b.get_order_book("BTCUSDT", limit=5), None, "GET-public-query")
+    else:
+        T["bitstamp.balances"] = (lambda b, s: s.get_account_balances(), True, "POST-auth-bare")
+        T["bitstamp.balance"] = (lambda b, s: s.get_account_balance("btc"), True, "POST-auth-bare")
+        T["bitstamp.open_orders.all"] = (lambda b, s: s.get_open_orders(), True, "POST-auth-bare")
+        T["bitstamp.open_orders.pair"] = (lambda b, s: s.get_open_orders("btcusd"), True, "POST-auth-bare")
+        T["bitstamp.websocket_token"] = (lambda b, s: s.get_websocket_auth_token(), True, "POST-auth-bare")
+        T["bitstamp.order_status.id"] = (lambda b, s: s.get_order_status(id=1234), True, "POST-auth-body")
+        T["bitstamp.order_status.client_id"] = (lambda b, s: s.get_order_status(client_order_id="a:/ b"), True, "POST-auth-body")
+        T["bitstamp.cancel_order"] = (lambda b, s: s.cancel_order(1234), True, "POST-auth-body")
+        T["bitstamp.limit"] = (lambda b, s: s.create_limit_order("buy", "btcusd", D("1"), D("0.00000085"), client_order_id="a&b"),
+                               True, "POST-auth-body")
+        T["bitstamp.market"] = (lambda b, s: s.create_market_order("sell", "btcusd", D("1E+3")), True, "POST-auth-body")
+        T["bitstamp.instant"] = (lambda b, s: s.create_instant_order("sell", "btcusd", D("1"), amount_in_counter=True), True,
+                                 "POST-auth-body")
+        T["bitstamp.public.ticker"] = (lambda b, s: s.get_ticker("btcusd"), None, "GET-public-bare")
+        T["bitstamp.public.order_book"] = (lambda b, s: s.get_order_book("btcusd", group=1), None, "GET-public-query")
+    return T
+
+
+def _class_reps(ex):
+    reps = {}
+    for n, (_, _, cls) in _seq_table(ex).items():
+        reps.setdefault(cls, n)
+    return sorted(reps.values())
+
+
 def endpoint_names():
     return sorted(endpoints(_Dummy(), _Dummy()).keys()) + ["<fixed>"]
 
@@ -124,59 +208,104 @@ class _Dummy:
 
 
 def scenarios(tier, seed):
-    return [(name,) for name in endpoint_names()] + [("<throttled>",), ("<decimal-kwargs>",)]
+    out = [(name,) for name in endpoint_names()] + [("<throttled>",), ("<decimal-kwargs>",)]
+    for ex in ("b", "s"):
+        out += [("<pairs>", ex, first) for first in sorted(_seq_table(ex))]
+        out += [("<triples>", ex, first) for first in _class_reps(ex)]
+        out += [("<drop>", ex, first) for first in _class_reps(ex) if _seq_table(ex)[first][1] is not None]
+    out.append(("<restart>",))
+    return out
+
+
+def _verify(ex, req, signed, now=None):
+    if signed is None:
+        return None
+    if ex == "b":
+        err = H.verify_binance(req, signed, now=now)
+        if err is None and req["host"] != "api.binance.com":
+            err = f"Host header {req['host']}"
+        return err
+    return H.verify_bitstamp(req, now=now)
+
+
+def _nonce_violations(res, nonces, rep, what):
+    """nonces: list of (nonce, description of the request that carried it), everything a scenario's server received."""
+    seen = {}
+    dups = []
+    for nonce, desc in nonces:
+        if nonce in seen:
+            dups.append((nonce, seen[nonce], desc))
+        else:
+            seen[nonce] = desc
+    if dups:
+        nonce, first, second = dups[0]
+        res.violation(f"{PROPERTY}:bitstamp:nonce-repeated", f"{len(dups)} repeated nonces among {len(nonces)} authenticated "
+                      f"requests received ({what}); e.g. {nonce} carried by [{first}] and again by [{second}]", rep, size=1)
+
+
+def _clients(session, tb=None):
+    """A fresh Binance and a fresh Bitstamp client object on the given session (tb: factory of a token bucket per client)."""
+    from basana.external.binance import client as bcli
+    from basana.external.bitstamp import client as scli
+    b = bcli.APIClient(H.KEY, H.SECRET, session=session, config_overrides=H.BINANCE_URL, tb=tb() if tb else None)
+    s = scli.APIClient(H.KEY, H.SECRET, session=session, config_overrides=H.BITSTAMP_URL, tb=tb() if tb else None)
+    return b, s
+
+
+def _bucket_model(tpp, per, initial):
+    """Boring reference of a token bucket on a clock that only moves when the client waits: yields the wait each consecutive
+    request needs (used ONLY to notice that the library waited in real time, i.e. that a sleep path is not virtualised)."""
+    tokens = float(initial)
+    while True:
+        tokens -= 1
+        if tokens >= 0:
+            yield 0.0
+        else:
+            wait = -tokens / tpp * per
+            yield wait
+            tokens = min(tokens + wait / per * tpp, tpp)
 
 
 async def _run_throttled(res):
     """Clients with a token bucket whose bucket is exhausted: the signed timestamp must be current when the request is
-    SENT, i.e. taken after the throttling wait. The clock only advances when a client sleeps."""
-    import asyncio as real_asyncio
-    import types
+    SENT, i.e. taken after the throttling wait. The clock only advances when the library sleeps."""
     from basana.core import token_bucket
-    from basana.external.binance import client as bcli
-    from basana.external.bitstamp import client as scli
-    import basana.external.binance.client.base as bbase
-    import basana.external.bitstamp.helpers as shelp
-    import basana.external.bitstamp.client as sclient
-
-    class Clock:
-        now = H.NOW
-    clk = Clock()
-    fake_time = types.SimpleNamespace(time=lambda: clk.now)
-
-    async def fake_sleep(d):
-        clk.now += d
-        await real_asyncio.sleep(0)
-    fake_asyncio = types.SimpleNamespace(sleep=fake_sleep)
-    saved = (bbase.time, shelp.time, token_bucket.time, bbase.asyncio, sclient.asyncio)
-    bbase.time = shelp.time = token_bucket.time = fake_time
-    bbase.asyncio = sclient.asyncio = fake_asyncio
+    seam = H.TimeSeam(virtual_sleep=True)
+    clk = seam.clock
     srv = H.Server()
     srv.clock = lambda: clk.now
     await srv.start()
+    nonces = []
+    rep = dict(endpoint="<throttled>", value=None)
     try:
         conn = aiohttp.TCPConnector(resolver=H.resolver(srv.port))
         async with aiohttp.ClientSession(connector=conn) as session:
-            for tpp, per, initial, nreq in ((1, 2.5, 1, 3), (2, 1, 0, 3), (1, 7, 1, 2)):
-                b = bcli.APIClient(H.KEY, H.SECRET, session=session, config_overrides=H.BINANCE_URL,
-                                   tb=token_bucket.TokenBucketLimiter(tpp, per, initial))
-                s = scli.APIClient(H.KEY, H.SECRET, session=session, config_overrides=H.BITSTAMP_URL,
-                                   tb=token_bucket.TokenBucketLimiter(tpp, per, initial))
-                calls = [("binance.spot.account", "b", lambda: b.spot_account.get_account_information()),
-                         ("binance.cross.query_order", "b", lambda: b.cross_margin_account.query_order("BTCUSDT", order_id=1)),
-                         ("binance.spot.create_order", "b", lambda: b.spot_account.create_order("BTCUSDT", "BUY", "MARKET", quantity=D("1"))),
-                         ("bitstamp.balances", "s", lambda: s.get_account_balances()),
-                         ("bitstamp.limit", "s", lambda: s.create_limit_order("buy", "btcusd", D("1"), D("2")))]
+            for tpp, per, initial, nreq in BUCKETS:
+                calls = [("binance.spot.account", "b", lambda b, s: b.spot_account.get_account_information()),
+                         ("binance.cross.query_order", "b", lambda b, s: b.cross_margin_account.query_order("BTCUSDT", order_id=1)),
+                         ("binance.spot.create_order", "b", lambda b, s: b.spot_account.create_order("BTCUSDT", "BUY", "MARKET", quantity=D("1"))),
+                         ("bitstamp.balances", "s", lambda b, s: s.get_account_balances()),
+                         ("bitstamp.limit", "s", lambda b, s: s.create_limit_order("buy", "btcusd", D("1"), D("2")))]
                 for n, ex, fn in calls:
+                    # a fresh pair of clients (fresh buckets) per endpoint: every endpoint meets the empty bucket
+                    b, s = _clients(session, tb=lambda: token_bucket.TokenBucketLimiter(tpp, per, initial))
+                    model = _bucket_model(tpp, per, initial)
                     for k in range(nreq):
                         srv.reqs.clear()
-                        before = clk.now
+                        before, slept0, real0 = clk.now, seam.slept, _real_time.monotonic()
+                        need = next(model)
                         err = None
                         try:
-                            await fn()
+                            await fn(b, s)
                         except Exception as e:  # noqa
                             err = f"client raised {type(e).__name__}: {e}"
                         waited = clk.now - before
+                        real = _real_time.monotonic() - real0
+                        if need > 0 and seam.slept == slept0 and real >= 0.8 * need:
+                            raise HarnessError(
+                                f"{n} request #{k} (bucket {tpp}/{per}s, initial {initial}) took {real:.2f}s of REAL time while the "
+                                f"virtual clock stood still: the library waits through a sleep path that the harness does not "
+                                f"virtualise; no verdict about 'timestamps are current' is possible")
                         res.executions += 1
                         res.transitions += 1
                         res.validated += 1
@@ -185,32 +314,35 @@ async def _run_throttled(res):
                         if waited > 0:
                             res.nontrivial.add(key)
                         if err is None:
-                            req = srv.reqs[-1]
-                            err = H.verify_binance(req, True, now=req["arrived"]) if ex == "b" else H.verify_bitstamp(req, now=req["arrived"])
+                            if len(srv.reqs) != 1:
+                                err = f"{len(srv.reqs)} requests received"
+                            else:
+                                req = srv.reqs[-1]
+                                err = _verify(ex, req, True, now=req["arrived"])
+                        for req in srv.reqs:
+                            if ex == "s":
+                                nonces.append((req["headers"].get("X-Auth-Nonce"), f"{n} #{k} bucket {tpp}/{per}"))
                         res.outcomes["verified" if err is None else "rejected"] += 1
                         if err is not None:
                             res.violation(f"{PROPERTY}:{'binance' if ex == 'b' else 'bitstamp'}:stale-timestamp-when-throttled",
                                           f"{err}; endpoint={n} request #{k} after a throttling wait of {waited}s "
-                                          f"(bucket {tpp}/{per}s, initial {initial})",
-                                          dict(endpoint="<throttled>", value=None), size=k)
+                                          f"(bucket {tpp}/{per}s, initial {initial})", rep, size=k)
     finally:
         await srv.stop()
-        bbase.time, shelp.time, token_bucket.time, bbase.asyncio, sclient.asyncio = saved
-    res.samples.append(dict(endpoint="<throttled>", buckets=[[1, 2.5, 1], [2, 1, 0], [1, 7, 1]]))
+        seam.restore()
+    _nonce_violations(res, nonces, rep, "throttled clients, one client object per endpoint and bucket")
+    res.samples.append(dict(endpoint="<throttled>", buckets=[list(x[:3]) for x in BUCKETS]))
 
 
 async def _run_decimal_kwargs(res):
     """Extra keyword arguments that are decimals (any exponent form): what is signed must be what is sent."""
-    from basana.external.binance import client as bcli
-    from basana.external.bitstamp import client as scli
     H.patch_time()
     srv = H.Server()
     await srv.start()
     try:
         conn = aiohttp.TCPConnector(resolver=H.resolver(srv.port))
         async with aiohttp.ClientSession(connector=conn) as session:
-            b = bcli.APIClient(H.KEY, H.SECRET, session=session, config_overrides=H.BINANCE_URL)
-            s = scli.APIClient(H.KEY, H.SECRET, session=session, config_overrides=H.BITSTAMP_URL)
+            b, s = _clients(session)
             decs = [D(c).scaleb(e) for c in (1, 85, 1230) for e in range(-12, 13)] + [D("30000").normalize(), D("0E-8")]
             calls = {
                 "binance.spot.create_order.kwarg": ("b", lambda x: b.spot_account.create_order("BTCUSDT", "BUY", "LIMIT", quantity=D("1"), price=D("2"), icebergQty=x)),
@@ -236,7 +368,7 @@ async def _run_decimal_kwargs(res):
                         res.nontrivial.add(key)
                     if err is None:
                         req = srv.reqs[-1]
-                        err = H.verify_binance(req, True) if ex == "b" else H.verify_bitstamp(req)
+                        err = _verify(ex, req, True)
                     res.outcomes["verified" if err is None else "rejected"] += 1
                     if err is not None:
                         res.violation(f"{PROPERTY}:{'binance' if ex == 'b' else 'bitstamp'}:{err.split(' over ')[0][:40]}:decimal-kwarg",
@@ -247,9 +379,216 @@ async def _run_decimal_kwargs(res):
     res.samples.append(dict(endpoint="<decimal-kwargs>", example="limit_price=Decimal('3E+4')"))
 
 
+async def _run_sequences(sc, res):
+    """Every ordered pair (first, X) of the exchange's request table / every triple (first, X, Y) of its class
+    representatives, each on ONE fresh client object; all requests are verified, all nonces of the scenario collected."""
+    kind, ex, first = sc
+    H.patch_time()
+    table = _seq_table(ex)
+    if kind == "<pairs>":
+        seqs = [(first, second) for second in sorted(table)]
+    else:
+        reps = _class_reps(ex)
+        seqs = [(first, x, y) for x in reps for y in reps]
+    srv = H.Server()
+    await srv.start()
+    nonces = []
+    rep = dict(endpoint=kind, sc=list(sc))
+    try:
+        conn = aiohttp.TCPConnector(resolver=H.resolver(srv.port))
+        async with aiohttp.ClientSession(connector=conn) as session:
+            for seq in seqs:
+                b, s = _clients(session)   # ONE client object for the whole sequence, a new one for the next sequence
+                classes = [table[n][2] for n in seq]
+                bad = None
+                for pos, n in enumerate(seq):
+                    fn, signed, cls = table[n]
+                    srv.reqs.clear()
+                    err = None
+                    random.seed(20240101)
+                    try:
+                        await fn(b, s)
+                    except Exception as e:  # noqa
+                        err = f"client raised {type(e).__name__}: {e}"
+                    res.transitions += 1
+                    if err is None:
+                        if len(srv.reqs) != 1:
+                            err = f"{len(srv.reqs)} requests received"
+                        else:
+                            err = _verify(ex, srv.reqs[-1], signed)
+                    for req in srv.reqs:
+                        if ex == "s" and signed is not None:
+                            nonces.append((req["headers"].get("X-Auth-Nonce"), f"{n} as request #{pos} of {'>'.join(seq)}"))
+                    if err is not None and bad is None:
+                        bad = (pos, n, cls, err)
+                res.executions += 1
+                res.validated += 1
+                key = h64((kind, seq))
+                res.states.add(key)
+                if len(set(classes)) > 1:
+                    res.nontrivial.add(key)
+                res.outcomes["verified" if bad is None else "rejected"] += 1
+                if bad is not None:
+                    pos, n, cls, err = bad
+                    prev = classes[pos - 1] if pos else "none"
+                    res.violation(f"{PROPERTY}:{'binance' if ex == 'b' else 'bitstamp'}:sequence:{err.split(' over ')[0][:40]}:{prev}>{cls}",
+                                  f"{err}; request #{pos} ({n}, class {cls}) of the sequence {' > '.join(seq)} on one client object "
+                                  f"(classes {' > '.join(classes)})", rep, size=pos)
+                if not res.samples and bad is None:
+                    res.samples.append(dict(sequence=list(seq), classes=classes))
+    finally:
+        await srv.stop()
+    _nonce_violations(res, nonces, rep, f"{len(seqs)} client objects, one per request sequence")
+
+
+def _drop_sets(tier):
+    """Arrival indexes (order of arrival at the server within one run) whose connection is dropped after the request was read:
+    every single index and every two consecutive ones (the second one hits whatever is transmitted next, e.g. a retry)."""
+    n = 5
+    out = [(i,) for i in range(n)]
+    if BOUNDS[tier]["drops"] >= 2:
+        out += [(i, i + 1) for i in range(n - 1)]
+    return out
+
+
+async def _run_drop(sc, tier, res):
+    """Server faults: sequences of three requests (first fixed by the scenario, the other two over the class representatives)
+    on one client object; for every drop set the requests arriving at those positions are read and then the connection is
+    closed without an answer. EVERYTHING the server received (including the dropped requests and whatever was transmitted
+    again) must verify at its arrival time, and all Bitstamp nonces must be pairwise distinct."""
+    kind, ex, first = sc
+    seam = H.TimeSeam(virtual_sleep=True)   # a retry that backs off moves the clock: its timestamp must then be fresh
+    clk = seam.clock
+    table = _seq_table(ex)
+    reps = [n for n in _class_reps(ex) if table[n][1] is not None]
+    srv = H.Server()
+    srv.clock = lambda: clk.now
+    await srv.start()
+    nonces = []
+    rep = dict(endpoint=kind, sc=list(sc))
+    try:
+        for seq in [(first, x, y) for x in reps for y in reps]:
+            for drops in _drop_sets(tier):
+                srv.reqs.clear()
+                srv.received = 0
+                srv.behaviour = lambda i, req, drops=drops: "drop" if i in drops else "ok"
+                # a fresh connection pool per run: a dropped connection of an earlier run must not decide this one
+                conn = aiohttp.TCPConnector(resolver=H.resolver(srv.port))
+                bad = None
+                run_nonces = []
+                async with aiohttp.ClientSession(connector=conn) as session:
+                    b, s = _clients(session)
+                    for pos, n in enumerate(seq):
+                        fn, signed, cls = table[n]
+                        i0 = len(srv.reqs)
+                        err = None
+                        random.seed(20240101)
+                        try:
+                            await fn(b, s)
+                        except Exception as e:  # noqa
+                            err = f"client raised {type(e).__name__}: {e}"
+                        res.transitions += 1
+                        mine = srv.reqs[i0:]
+                        if err is not None and any(r["dropped"] for r in mine):
+                            err = None   # the caller gets to know that the connection was dropped: fine
+                        if err is None and not mine:
+                            err = "nothing was transmitted"
+                        for r in mine:
+                            e2 = _verify(ex, r, signed, now=r["arrived"])
+                            if e2 is not None and err is None:
+                                err = e2 + (" (request re-sent after a dropped connection)" if r is not mine[0] else "")
+                            if ex == "s":
+                                run_nonces.append((r["headers"].get("X-Auth-Nonce"),
+                                                   f"arrival #{r['index']}{' (dropped)' if r['dropped'] else ''} of {' > '.join(seq)} "
+                                                   f"with drops {drops}"))
+                        if err is not None and bad is None:
+                            bad = (pos, n, err)
+                hit = [r["index"] for r in srv.reqs if r["dropped"]]
+                res.executions += 1
+                res.validated += 1
+                key = h64((kind, seq, drops))
+                res.states.add(key)
+                if hit:
+                    res.nontrivial.add(key)
+                res.outcomes[("verified" if bad is None else "rejected") + f":{len(hit)}-dropped:{len(srv.reqs)}-received"] += 1
+                if bad is not None:
+                    pos, n, err = bad
+                    res.violation(f"{PROPERTY}:{'binance' if ex == 'b' else 'bitstamp'}:after-drop:{err.split(' over ')[0][:40]}",
+                                  f"{err}; call #{pos} ({n}) of {' > '.join(seq)}; connections dropped after receiving arrivals "
+                                  f"{hit}; {len(srv.reqs)} requests received in all", rep, size=len(hit))
+                # nonces are compared within the run (a replay of the dropped request) AND across the whole scenario
+                nonces += run_nonces
+                if len({x[0] for x in run_nonces}) != len(run_nonces):
+                    _nonce_violations(res, run_nonces, rep, f"calls {' > '.join(seq)}, connections dropped after receiving arrivals {hit}")
+                if not res.samples and hit and bad is None:
+                    res.samples.append(dict(sequence=list(seq), dropped_arrivals=hit, received=len(srv.reqs)))
+    finally:
+        srv.behaviour = None
+        await srv.stop()
+        seam.restore()
+    _nonce_violations(res, nonces, rep, "all runs of the scenario, one client object per run")
+
+
+_RESTART_CHILD = r"""
+import asyncio, json, sys
+sys.path.insert(0, %r)
+from mc import repo
+repo.bind()
+import aiohttp
+from decimal import Decimal as D
+from worlds import http as H
+from basana.external.bitstamp import client as scli
+
+async def main():
+    H.patch_time()
+    srv = H.Server()
+    await srv.start()
+    try:
+        conn = aiohttp.TCPConnector(resolver=H.resolver(srv.port))
+        async with aiohttp.ClientSession(connector=conn) as session:
+            for c in range(2):
+                s = scli.APIClient(H.KEY, H.SECRET, session=session, config_overrides=H.BITSTAMP_URL)
+                await s.get_account_balances()
+                await s.create_limit_order("buy", "btcusd", D("1"), D("2"))
+                await s.cancel_order(1234)
+    finally:
+        await srv.stop()
+    print(json.dumps([[r["headers"].get("X-Auth-Nonce"), H.verify_bitstamp(r)] for r in srv.reqs]))
+asyncio.run(main())
+"""
+
+
+def _run_restart(res):
+    """The program is started twice with identical inputs (same hash seed, same frozen clock, same requests): nonces must not
+    repeat across the two processes either (Bitstamp remembers them for longer than a restart takes)."""
+    verif = os.path.dirname(os.path.dirname(os.path.abspath(__file__)))
+    rep = dict(endpoint="<restart>", sc=["<restart>"])
+    runs = []
+    for k in range(2):
+        p = subprocess.run([sys.executable, "-B", "-c", _RESTART_CHILD % verif], capture_output=True, text=True, cwd=verif,
+                           env=dict(os.environ, PYTHONHASHSEED="0"), timeout=300)
+        if p.returncode != 0:
+            raise HarnessError(f"restart child failed: {p.stderr[-2000:]}")
+        runs.append(json.loads(p.stdout.strip().splitlines()[-1]))
+        res.executions += 1
+        res.transitions += len(runs[-1])
+        res.validated += 1
+    nonces = []
+    for k, run in enumerate(runs):
+        for i, (nonce, err) in enumerate(run):
+            nonces.append((nonce, f"request #{i} of process start #{k}"))
+            if err:
+                res.violation(f"{PROPERTY}:bitstamp:{err.split(' over ')[0][:40]}:restart", f"{err}; request #{i} of process start #{k}",
+                              rep, size=i)
+    key = h64(("restart", len(nonces)))
+    res.states.add(key)
+    res.nontrivial.add(key)
+    res.outcomes["restart-compared"] += 1
+    _nonce_violations(res, nonces, rep, "two process starts with identical inputs, two client objects each")
+    res.samples.append(dict(endpoint="<restart>", requests_per_start=len(runs[0])))
+
+
 async def _run(name, tier, res):
-    from basana.external.binance import client as bcli
-    from basana.external.bitstamp import client as scli
     H.patch_time()
     srv = H.Server()
     await srv.start()
@@ -257,25 +596,28 @@ async def _run(name, tier, res):
     try:
         conn = aiohttp.TCPConnector(resolver=H.resolver(srv.port))
         async with aiohttp.ClientSession(connector=conn) as session:
-            b = bcli.APIClient(H.KEY, H.SECRET, session=session, config_overrides=H.BINANCE_URL)
-            s = scli.APIClient(H.KEY, H.SECRET, session=session, config_overrides=H.BITSTAMP_URL)
+            # two client objects per exchange, used alternately: "never repeat" ranges over the account, not over one object
+            pairs = [_clients(session), _clients(session)]
             if name == "<fixed>":
-                calls = [(n, ex, fn, signed, None) for n, (ex, fn, signed) in fixed_endpoints(b, s).items()]
+                tables = [fixed_endpoints(b, s) for b, s in pairs]
+                calls = [(n, ex, [t[n][1] for t in tables], signed, None) for n, (ex, fn, signed) in tables[0].items()
+                         for _ in range(2)]
             else:
-                ex, fn, signed = endpoints(b, s)[name]
-                calls = [(name, ex, (lambda x=x, fn=fn: fn(x)), signed, x) for x in strings(tier)]
-            for n, ex, fn, signed, x in calls:
+                tables = [endpoints(b, s) for b, s in pairs]
+                ex, _, signed = tables[0][name]
+                calls = [(name, ex, [(lambda x=x, fn=t[name][1]: fn(x)) for t in tables], signed, x) for x in strings(tier)]
+            for i, (n, ex, fns, signed, x) in enumerate(calls):
                 srv.reqs.clear()
                 err = None
                 random.seed(20240101)  # an application that (re)seeds the global RNG must not make nonces repeat
                 try:
-                    await fn()
+                    await fns[i % 2]()
                 except Exception as e:  # noqa
                     err = f"client raised {type(e).__name__}: {e}"
                 res.executions += 1
                 res.transitions += 1
                 res.validated += 1
-                key = h64((n, x))
+                key = h64((n, x, i % 2 if x is None else 0))
                 res.states.add(key)
                 if x is None or any(c in SPECIAL or not c.isalnum() for c in x):
                     res.nontrivial.add(key)
@@ -284,13 +626,9 @@ async def _run(name, tier, res):
                         err = f"{len(srv.reqs)} requests received"
                     else:
                         req = srv.reqs[-1]
-                        if ex == "b":
-                            err = H.verify_binance(req, signed)
-                            if err is None and req["host"] != "api.binance.com":
-                                err = f"Host header {req['host']}"
-                        else:
-                            err = H.verify_bitstamp(req)
-                            nonces.append(req["headers"].get("X-Auth-Nonce"))
+                        err = _verify(ex, req, signed)
+                        if ex == "s":
+                            nonces.append((req["headers"].get("X-Auth-Nonce"), f"{n} value={x!r} client object #{i % 2}"))
                 res.outcomes["verified" if err is None else "rejected"] += 1
                 case = dict(endpoint=n, value=x)
                 if not res.samples and x is not None and err is None:
@@ -303,9 +641,7 @@ async def _run(name, tier, res):
                                   size=len(x or ""))
     finally:
         await srv.stop()
-    if len(set(nonces)) != len(nonces):
-        res.violation(f"{PROPERTY}:bitstamp:nonce-repeated", f"{len(nonces) - len(set(nonces))} repeated nonces in {len(nonces)} "
-                      f"requests", dict(endpoint=name, value=None), size=1)
+    _nonce_violations(res, nonces, dict(endpoint=name, value=None), "two client objects used alternately")
 
 
 def run_scenario(sc, tier):
@@ -314,6 +650,12 @@ def run_scenario(sc, tier):
         asyncio.run(_run_throttled(res))
     elif sc[0] == "<decimal-kwargs>":
         asyncio.run(_run_decimal_kwargs(res))
+    elif sc[0] in ("<pairs>", "<triples>"):
+        asyncio.run(_run_sequences(sc, res))
+    elif sc[0] == "<drop>":
+        asyncio.run(_run_drop(sc, tier, res))
+    elif sc[0] == "<restart>":
+        _run_restart(res)
     else:
         asyncio.run(_run(sc[0], tier, res))
     return res
@@ -325,18 +667,21 @@ def replay(rep):
     if name in ("<throttled>", "<decimal-kwargs>"):
         asyncio.run(_run_throttled(res) if name == "<throttled>" else _run_decimal_kwargs(res))
         return [v["message"] for v in res.violations][:5]
+    if name in ("<pairs>", "<triples>", "<drop>", "<restart>"):
+        res = run_scenario(tuple(rep["sc"]), "quick")
+        return [v["message"] for v in res.violations][:5]
+    if rep.get("value") is None and name not in fixed_endpoints(_Dummy(), _Dummy()):
+        asyncio.run(_run(name, "quick", res))   # a nonce finding of a whole endpoint scenario
+        return [v["message"] for v in res.violations][:5]
 
     async def one():
-        from basana.external.binance import client as bcli
-        from basana.external.bitstamp import client as scli
         H.patch_time()
         srv = H.Server()
         await srv.start()
         try:
             conn = aiohttp.TCPConnector(resolver=H.resolver(srv.port))
             async with aiohttp.ClientSession(connector=conn) as session:
-                b = bcli.APIClient(H.KEY, H.SECRET, session=session, config_overrides=H.BINANCE_URL)
-                s = scli.APIClient(H.KEY, H.SECRET, session=session, config_overrides=H.BITSTAMP_URL)
+                b, s = _clients(session)
                 table = endpoints(b, s)
                 if name in table:
                     ex, fn, signed = table[name]
@@ -348,7 +693,7 @@ def replay(rep):
                 print("request line:", req["method"], req["raw_path"])
                 print("headers:", {k: v for k, v in req["headers"].items() if k.startswith("X-") or k in ("Host", "Content-Type")})
                 print("body:", req["body"])
-                return H.verify_binance(req, signed) if ex == "b" else H.verify_bitstamp(req)
+                return _verify(ex, req, signed)
         finally:
             await srv.stop()
     err = asyncio.run(one())
